@@ -48,6 +48,8 @@ func c14Values() []any {
 		// integers around the 32/53/64-bit boundaries, floats that must stay floats
 		2147483647, 2147483648, -2147483649, 9007199254740993, math.MaxInt64, math.MinInt64, 0.1, 1e21, 1e-7,
 		m("big", 3000000000, "huge", 9007199254740993, "max", math.MaxInt64, "f", 0.1), l(2147483648, 4294967296, -2147483649),
+		// strings whose leading/trailing white space is part of the value (block scalars in YAML), also as the last leaf
+		"x\n", "x\ny\n\n", " x ", "\n", m("k", "x\n"), m("a", 1, "k", "x\ny\n\n"), l("a", "b\n"), m("k", " lead"), m("k", "trail "), m("k", "\tx"), l("  "),
 	}
 }
 
@@ -604,7 +606,7 @@ func buildC14(tier string) *core.Plan {
 				j := i % n4
 				c14Check(c, vals[i/n4], []any{good[(j/(ng*ng*ng))%ng], good[(j/(ng*ng))%ng], good[(j/ng)%ng], good[j%ng]})
 			}})
-		ga := gen.Alphabet{Scalars: []any{0, -7, 1.5, "", "s", "1", "true", true, "a: b", "x\ny"}, Keys: []string{"a", "b c", "1"}, MaxList: 3, MaxMap: 2}
+		ga := gen.Alphabet{Scalars: []any{0, -7, 1.5, "", "s", "1", "true", true, "a: b", "x\ny", "y\n", " z "}, Keys: []string{"a", "b c", "1"}, MaxList: 3, MaxMap: 2}
 		trees := gen.Trees(ga, 4)
 		ntr := int64(len(trees))
 		spaces = append(spaces, core.Space{Name: "decode-inverts-encode-generated", N: ntr * nf,
@@ -643,7 +645,7 @@ func buildC14(tier string) *core.Plan {
 		}})
 	return &core.Plan{
 		Spaces: spaces,
-		Rule:   "52 values (scalars, flat/nested maps and lists, list-valued and empty-string entries) x every stack of <=2 of 29 transform spellings and of 3 (thorough: 4) well-formed ones (valid, malformed arguments, unknown, non-string) in map form, list-marker form and $value form; decode(encode(v)) for 6 formats (thorough: also for every tree of <=4 nodes over 10 scalars incl. number- and yaml-looking strings)",
+		Rule:   "63 values (scalars, strings with significant leading/trailing white space, flat/nested maps and lists, list-valued and empty-string entries) x every stack of <=2 of 29 transform spellings and of 3 (thorough: 4) well-formed ones (valid, malformed arguments, unknown, non-string) in map form, list-marker form and $value form; decode(encode(v)) for 6 formats (thorough: also for every tree of <=4 nodes over 10 scalars incl. number- and yaml-looking strings)",
 		Assumptions: []string{"refEncode is built on crypto/sha256, encoding/base64, encoding/json and strings; yaml/toml text is judged by parsing it back with yaml.v3 / go-toml called directly (not through bkl) and comparing values",
 			"not judged: base64/sha256 of containers, join/prefix/tolist over nested containers, toml of non-maps or of empty/mixed arrays, a transform applied to yaml/toml text (exact bytes not fixed)"},
 		Bounds: map[string]any{"values": len(vals), "transforms": len(c14Transforms)},
